@@ -50,6 +50,9 @@
    * expiry when further MsgTransferLeader requests keep arriving (each NEW target restarts
      the timer at 0, C17_transfer_timer_step; a repeated request for the same target does
      not), and under vote requests that claim to come from the node itself.
+   * the trace theorems quantify over sequences of the RawNode entry points of M/RawNode.v
+     (rn_input); calls made directly on the public `raft` field of the Rust RawNode are
+     covered only function by function (sections 1, 3, 4), not as trace inputs.
 
    Glossary (definitions of M/RaftProofsC17.v used below)
      same_term_msg r m   m_term m = 0 \/ m_term m = r_term r   (local or same-term message)
